@@ -47,10 +47,13 @@ breaking('refix-SeparableDensityMatrix', {'C01': 'K3'}, patch_reverse='fix_88b6a
 breaking('refix-cayley', {'C02': 'G2'}, patch_reverse='fix_55bbd5a.diff')
 breaking('refix-clifford-cache', {'C07': 'H1'}, patch_reverse='fix_c3ac8d1.diff')
 breaking('refix-parse_simple_pauli', {'C19': 'Q1'}, patch_reverse='fix_c93f031.diff')
-breaking('refix-so3_to_angle', {'C15': 'MS1'}, patch_reverse='fix_f005967.diff')
+breaking('refix-so3_to_angle', {'C15': 'MS1'}, edit=[(M + 'group/_lie.py', "tmp0 = np.arctan2(x10[ind0], x00[ind0]) % (2*np.pi) #(0,2*pi) alpha+gamma", "tmp0 = np.arctan2(x10, x00) % (2*np.pi) #(0,2*pi) alpha+gamma"), (M + 'group/_lie.py', "tmp1 = np.arccos(np.clip(x02[ind2]*tmp0, -1, 1)) #(0,pi)", "tmp1 = np.arccos(np.clip(x02*tmp0, -1, 1)) #(0,pi)")])
 breaking('refix-rank-one-detector', {'C20': 'T1'}, patch_reverse='fix_4bf16b8.diff')
 breaking('refix-to_ball', {'C01': 'RB1'}, patch_reverse='fix_24b05d5.diff')
 breaking('refix-maximally_coherent_state', {'C18': 'RD1'}, patch_reverse='fix_b540f01.diff')
+breaking('refix-gimbal-sign', {'C15': 'AG1'}, edit=[(M + 'group/_lie.py', "tmp0 = np.arctan2(x10[ind0], x00[ind0]) % (2*np.pi) #(0,2*pi) alpha+gamma", "tmp0 = np.arccos(np.clip(x00[ind0], -1, 1)) #(0,pi) alpha+gamma")])
+breaking('refix-arccos-clip-beta', {'C15': 'F3'}, edit=[(M + 'group/_lie.py', "beta = np.arccos(np.clip(x22, -1, 1))", "beta = np.arccos(x22)")])
+breaking('refix-arccos-clip-generic', {'C15': 'F3'}, patch_reverse='fix_8f74388.diff')
 breaking('refix-get_gme_2qubit', {'C13': 'F2', 'C05': 'F2'}, patch_reverse='fix_78cd862.diff')
 
 # ---- textual breaking edits, one per rule family
@@ -136,7 +139,7 @@ preserving('keep-pt-other-party', ['C06', 'C05'], [(M + 'entangle/ppt.py', ".tra
 preserving('keep-table-reordered', ['C08'], [(M + 'gate/_pauli.py', "tmp0 = {(0,0):0, (1,0):1, (0,1):3, (1,1):2}", "tmp0 = {(1,1):2, (0,1):3, (1,0):1, (0,0):0}")])
 preserving('keep-append-constraint', ['C06'], [(M + 'entangle/symext.py', "        constraints += [cvx_rdm==cvx_rho]", "        constraints.append(cvx_rdm==cvx_rho)")])
 preserving('keep-split-transpose', ['C12'], [(M + 'channel/_internal.py', "ret = op.reshape(dim_out,dim_out,dim_in,dim_in).transpose(2,0,3,1).reshape", "ret = op.reshape(dim_out,dim_out,dim_in,dim_in).transpose(2,3,0,1).transpose(0,2,1,3).reshape")])
-preserving('keep-mask-alias', ['C15'], [(M + 'group/_lie.py', "        tmp0 = np.arccos(x00[ind0]) #(0,pi) alpha+gamma\n        alpha[ind0] = tmp0/2\n        gamma[ind0] = tmp0/2", "        tmp0 = np.arccos(x00[ind0])/2 #(0,pi) alpha+gamma\n        alpha[ind0] = tmp0\n        gamma[ind0] = tmp0")])
+preserving('keep-mask-alias', ['C15'], [(M + 'group/_lie.py', "        tmp0 = np.arctan2(x10[ind0], x00[ind0]) % (2*np.pi) #(0,2*pi) alpha+gamma\n        alpha[ind0] = tmp0/2\n        gamma[ind0] = tmp0/2", "        tmp0 = (np.arctan2(x10[ind0], x00[ind0]) % (2*np.pi))/2 #(0,pi) (alpha+gamma)/2\n        alpha[ind0] = tmp0\n        gamma[ind0] = tmp0")])
 preserving('keep-circuit-arm-builder', ['C19'], [(M + 'qec/_qecc.py', "                ret.X(y)\n", "                ret.single_qubit_gate(numqi.gate.X, y)\n")])
 preserving('keep-gate-alias', ['C03', 'C19'], [(M + 'sim/circuit.py', "Z = _unitary_gate('Z', numqi.gate.pauli.sz, 1)", "Z = _unitary_gate('Z', numqi.gate.Z, 1)")])
 preserving('keep-eof-guard-clip', ['C13', 'C05'], [(M + 'entangle/eof.py', "tmp1 = (1 + np.sqrt(np.maximum(0, 1-tmp0*tmp0)))/2", "tmp1 = (1 + np.sqrt(np.clip(1-tmp0*tmp0, 0, 1)))/2")])
